@@ -76,8 +76,8 @@ DONT_CARE = [
 # S2: generated modules
 # ======================================================================================
 
-KINDS = "DSNFIfaclit"
-#  D docstring (two-line string)     S second string statement     N bare non-string constant
+KINDS = "DESNFIfaclit"
+#  D docstring (two-line string)     E empty-string statement (an empty docstring when first)     S second string statement     N bare non-string constant
 #  F from __future__ import annotations     I import os     f def     a async def     c class
 #  l lambda assignment     i if/else containing a def     t try containing a class
 DEFLIKE = frozenset("facit")
@@ -150,6 +150,8 @@ def gen_source(seq, k, nest):
     for j, ch in enumerate(seq):
         if ch == "D":
             lines += ['"""module doc', 'second line"""']
+        elif ch == "E":
+            lines.append('""')
         elif ch == "S":
             lines.append("'second string'")
         elif ch == "N":
@@ -1011,7 +1013,7 @@ def run(ctx):
         plan = [
             (list(sequences(2)), "all", True, "all"),
             (list(sequences(3, 3)), QUICK_3, True, QUICK_3),
-            ([q for q in sequences(4, 4) if q[0] in "DSNF"], QUICK_4, False, []),
+            ([q for q in sequences(4, 4) if q[0] in "DESNF"], QUICK_4, False, []),
         ]
     else:
         plan = [
@@ -1090,7 +1092,7 @@ def run(ctx):
         violations_total=len(viols),
         cpu_seconds=cpu,
         bounds=(
-            "S2: item sequences of length <= 4 over 11 kinds (DSNFIfaclit) x existing decorators {0,1,2} x 7 nesting shapes (two levels below the item) x "
+            "S2: item sequences of length <= 4 over 12 kinds (DESNFIfaclit) x existing decorators {0,1,2} x 7 nesting shapes (two levels below the item) x "
             "{string typechecker, None}; static oracles on "
             + ("all 21 variants for length <= 2, 2 variants for length 3, 1 variant for the length-4 sequences that start with D/S/N/F; executed: length <= 3 (same variants)" if ctx.quick
                else "the full product; executed: all variants for length <= 3, 4 variants for length 4")
